@@ -23,9 +23,23 @@ using namespace soplex;
 
 // candidate findings of this harness (exclusion keys; active only when passed via --x known=...)
 static const char* K_RNG = "rng-state-persists";        // Random never re-seeded at the start of a solve and not copied
-static const char* K_UNINIT = "copy-uninit-boost-flags"; // SPxSolverBase::solvingForBoosted/storeBasisSimplexFreq uninitialised in copy-constructed objects
-static const char* K_LEAK = "assign-leaks-old-lps";      // operator= drops the old separate real LP / rational LP without freeing them
+static const char* K_UNINIT = "asan__solver-uninit-members";   // SPxSolverBase constructors leave members unwritten (instableLeave/instableEnter..., solvingForBoosted, storeBasisSimplexFreq); operator= and the copy's solve read them
+static const char* K_LEAK = "asan__assign-leaks-old-lps";      // operator= drops the old separate real LP / rational LP without freeing them
 static const char* K_FRESH = "fresh-object-basis-state";  // first solve of a freshly built object starts from the descriptor accumulated while the LP was built (basis status REGULAR, starter skipped); after clearBasis() the solver starts from NO_PROBLEM
+
+static const char* K_WEIGHTS = "steep-weights-survive-clearbasis";   // SPxSolverBase::weightsAreSetup/weights survive reLoad()/loadLP(): quick-start steepest edge reuses the norms of the previous solve on the slack basis
+static const char* K_SPARSE = "sparse-pricing-state-persists";       // sparsePricing*/remainingRounds* are never reset at the start of a solve
+
+static const char* K_SCALER = "copy-shares-scaler";    // SPxLPBase::operator= copies lp_scaler: the copy's scaled LP points to the scaler object embedded in the source
+
+static const char* K_MATRIX = "copy-shares-basis-matrix";   // SPxBasisBase::operator= copies the array of pointers to the SOURCE's column/unit vectors together with matrixIsSetup = true
+static const char* K_STATUS = "assign-clears-status";       // operator= to an object holding a rational LP from a source without one: clearLPRational() resets the status copied before
+
+static const char* K_LUASSIGN = "slufactor-assign-stale-rval";   // SLUFactor::assign tests the destination's stale l.rval instead of the source's: memcpy from nullptr when the destination had solved before
+static const char* K_SCALEROFF = "copy-rederives-disabled-scaler"; // _optimize() consults _scaler, which the previous solve may have left nullptr (_disableSimplifierAndScaler); operator= re-derives it from the parameter
+
+static const char* K_RATTOL = "copy-drops-rational-tolerances";   // _rationalFeastol/_rationalOpttol/_rationalMaxscaleincr (caches of FEASTOL/OPTTOL/MAXSCALEINCR) are not copied by operator=
+static const char* K_CTOR = "copyctor-default-constructs-members"; // copy constructor default-constructs all members: _scalerGeo1/_scalerGeoequi lose their configuration (rounds, post-equilibration), counters stay unwritten
 
 static bool trace()
 {
@@ -117,11 +131,11 @@ static Obs observe(SoPlex& s)
    for(int p = 0; p < SoPlex::INTPARAM_COUNT; p++) put(o, "par.int[" + std::to_string(p) + "]", s.intParam((SoPlex::IntParam) p));
    for(int p = 0; p < SoPlex::BOOLPARAM_COUNT; p++) put(o, "par.bool[" + std::to_string(p) + "]", s.boolParam((SoPlex::BoolParam) p));
    for(int p = 0; p < SoPlex::REALPARAM_COUNT; p++) put(o, "par.real[" + std::to_string(p) + "]", hx(s.realParam((SoPlex::RealParam) p)));
-   put(o, "par.name.starter", s.getStarterName());
-   put(o, "par.name.simplifier", s.getSimplifierName());
-   put(o, "par.name.scaler", s.getScalerName());
-   put(o, "par.name.pricer", s.getPricerName());
-   put(o, "par.name.ratiotester", s.getRatiotesterName());
+   put(o, "names.starter", s.getStarterName());
+   put(o, "names.simplifier", s.getSimplifierName());
+   put(o, "names.scaler", s.getScalerName());
+   put(o, "names.pricer", s.getPricerName());
+   put(o, "names.ratiotester", s.getRatiotesterName());
    put(o, "seed.randomSeed", (long) s.randomSeed());
    put(o, "basis.hasBasis", s.hasBasis());
    put(o, "basis.basisStatus", (long) s.basisStatus());
@@ -229,6 +243,15 @@ static std::string obsGet(const Obs& o, const std::string& k)
 static const unsigned char FILLS[] = {0x00, 0xA5, 0xFF, 0x01};
 static SoPlex* makeAt(int fill, const SoPlex* src)
 {
+#ifdef C17_ASAN
+   // known finding asan__solver-uninit-members (UBSan: load of an indeterminate bool in operator=): in the sanitizer
+   // flavour every object is built over zeroed memory when the key is passed; the plain flavour keeps the fill patterns
+   if(knownKey(K_UNINIT) && (fill & 3) != 0)
+   {
+      fill = 0;
+      ev().count(std::string("excluded_known.") + K_UNINIT);
+   }
+#endif
    void* mem = ::operator new(sizeof(SoPlex));
    memset(mem, FILLS[fill & 3], sizeof(SoPlex));      // indeterminate values of members no constructor writes
    return src ? new(mem) SoPlex(*src) : new(mem) SoPlex();
@@ -341,6 +364,13 @@ static DSVectorReal sparseFrom(const Rec& r, size_t& p, int dim)
 static bool g_reseed = false;   // known finding rng-state-persists: emulate "state reset at the start of each solve"
 static std::string doSolve(SoPlex& s)
 {
+   // zero-dimensional LPs are copied, compared and modified but not solved (nothing about solving them is claimed;
+   // e.g. STARTER_WEIGHT on an LP without rows reads row[0] in SPxWeightST::initPrefs and crashes)
+   if(s.numRows() == 0 || s.numCols() == 0)
+   {
+      ev().count("unjudged.zero_dimensional_solve_skipped");
+      return "skipped (zero-dimensional LP)";
+   }
    if(g_reseed) s.setRandomSeed(s.randomSeed());
    try
    {
@@ -394,7 +424,9 @@ static std::string applyOp(SoPlex& s, const Rec& r, size_t b)
          int row = (int)(r.i(b + 1) % m);
          VectorReal coef(m);
          coef.clear();
-         bool ok = s.getBasisInverseRowReal(row, coef.get_ptr());
+         // unscale = false: with unscale = true the call goes through the currently selected scaler object, which is a
+         // different (never used) object after a SCALER change on a scaled LP (null dereference; not a C17 matter)
+         bool ok = s.getBasisInverseRowReal(row, coef.get_ptr(), nullptr, nullptr, false);
          return std::string(ok ? "1 " : "0 ") + (ok ? hxv(coef) : "");
       }
       if(op == "setint")
@@ -405,6 +437,11 @@ static std::string applyOp(SoPlex& s, const Rec& r, size_t b)
       if(op == "setbool")
       {
          bool ok = s.setBoolParam((SoPlex::BoolParam) r.i(b + 1), r.i(b + 2) != 0);
+         return ok ? "ok" : "rejected";
+      }
+      if(op == "setreal")
+      {
+         bool ok = s.setRealParam((SoPlex::RealParam) r.i(b + 1), r.q(b + 2).get_d());
          return ok ? "ok" : "rejected";
       }
       if(op == "setseed")
@@ -651,9 +688,17 @@ static void genModOp(Rec& r, int& m, int& n, bool allowParam)
       default:
          if(!allowParam) continue;
          {
-            int k = W({3, 3, 3, 3, 2, 2, 2, 2});
+            int k = W({3, 3, 3, 3, 2, 2, 2, 2, 4});
             switch(k)
             {
+            case 8:
+            {
+               static const char* tols[] = {"1/100", "1/1000", "1/10000", "1/100000000", "1/10000000000"};
+               static const int ids[] = {SoPlex::FEASTOL, SoPlex::OPTTOL, SoPlex::FEASTOL, SoPlex::OPTTOL, SoPlex::EPSILON_ZERO, SoPlex::EPSILON_PIVOT};
+               int id = ids[R(0, 5)];
+               r.add("setreal").add(id).add(id == SoPlex::EPSILON_ZERO || id == SoPlex::EPSILON_PIVOT ? (P(50) ? "1/1000000000000" : "1/100000000") : tols[R(0, 4)]);
+               return;
+            }
             case 0:
                r.add("setint").add((int) SoPlex::PRICER).add(R(0, 5));
                return;
@@ -755,6 +800,7 @@ static void gen(Case& c)
       }
       c.pl = Planted();
       c.recs.push_back(Rec("part").add("det"));
+      if(P(35)) c.recs.push_back(Rec("real").add((int) SoPlex::SPARSITY_THRESHOLD).add(0));   // sparse pricing never used
    }
    else
    {
@@ -969,29 +1015,45 @@ static Verdict runDet(const Case& c)
    if(v.ok)
    {
       // solving the same unmodified object again after clearing its basis
+      bool skip = false;
+      if(knownKey(K_WEIGHTS) && A->intParam(SoPlex::PRICER) == SoPlex::PRICER_QUICKSTEEP)
+      {
+         skip = true;
+         e.count(std::string("excluded_known.") + K_WEIGHTS);
+      }
+      if(knownKey(K_SPARSE) && A->realParam(SoPlex::SPARSITY_THRESHOLD) != 0.0)
+      {
+         skip = true;
+         e.count(std::string("excluded_known.") + K_SPARSE);
+      }
       A->clearBasis();
       std::string ra2 = doSolve(*A);
       Obs oa2 = observe(*A);
-      e.count("det.resolve_after_clearBasis");
-      if(knownKey(K_FRESH)) e.count(std::string("excluded_known.") + K_FRESH);
-      else if(ra2 != ra) v.fail("determinism: re-solve after clearBasis() ends differently from the first solve: " + ra + " vs " + ra2);
-      else
+      if(!skip)
       {
-         std::string d = firstDiff(oa, oa2, nullptr, "first", "second");
-         if(!d.empty()) v.fail("determinism: re-solve after clearBasis() differs from the first solve in " + d);
-      }
-      if(v.ok)
-      {
-         // ... and once more: the second and the third solve both start from a cleared basis
+         // the second and the third solve both start from a cleared basis: no state may survive clearBasis()
          A->clearBasis();
          std::string ra3 = doSolve(*A);
          Obs oa3 = observe(*A);
          e.count("det.second_resolve_after_clearBasis");
+         if(A->numIterations() >= 2) e.count("det.second_resolve_after_clearBasis.iters2+");
          if(ra3 != ra2) v.fail("determinism: third solve after clearBasis() ends differently from the second solve after clearBasis(): " + ra2 + " vs " + ra3);
          else
          {
             std::string d = firstDiff(oa2, oa3, nullptr, "second", "third");
             if(!d.empty()) v.fail("determinism: third solve after clearBasis() differs from the second solve after clearBasis() in " + d);
+         }
+      }
+      if(v.ok && !skip)
+      {
+         // the statement's clause: first solve of the fresh object vs. re-solve after clearBasis()
+         e.count("det.resolve_after_clearBasis");
+         if(knownKey(K_FRESH)) e.count(std::string("excluded_known.") + K_FRESH);
+         else if(ra2 != ra) v.fail("determinism: re-solve after clearBasis() ends differently from the first solve: " + ra + " vs " + ra2);
+         else
+         {
+            std::string d = firstDiff(oa, oa2, nullptr, "first", "second");
+            if(!d.empty()) v.fail("determinism: re-solve after clearBasis() differs from the first solve in " + d);
          }
       }
    }
@@ -1004,6 +1066,9 @@ static Verdict runDet(const Case& c)
 
 // ------------------------------------------------------------------ part copy
 static const char* EQ_GROUPS = "lp par basis status sol ratlp ratsol";   // what a copy must share with its source (statement)
+// two objects with the same history: everything except the component names (get*Name() report the transient internal
+// binding - e.g. "none" after a re-solve without preprocessing - which a copy legitimately re-derives from the parameters)
+static const char* TWIN_GROUPS = "lp par seed basis status sol ratlp ratsol stat";
 
 static Verdict runCopy(const Case& c)
 {
@@ -1016,13 +1081,6 @@ static Verdict runCopy(const Case& c)
    int fillA = fr ? (int) fr->i(0) : 0, fillT = fr ? (int) fr->i(1) : 1, fillB = fr ? (int) fr->i(2) : 2;
    int kind = cr ? (int) cr->i(0) : 0, side = cr ? (int) cr->i(1) : 0;
    bool destroy = cr && cr->i(2) != 0, recycle = cr && cr->i(3) != 0;
-   // known finding copy-uninit-boost-flags: members of the embedded solver that no constructor writes are read by the
-   // copy's solve; with the key, copy-constructed objects are built over zeroed memory only
-   if(knownKey(K_UNINIT) && kind == 0 && fillB != 0)
-   {
-      fillB = 0;
-      e.count(std::string("excluded_known.") + K_UNINIT);
-   }
    std::vector<void*> keep;
    std::string err;
    SoPlex* A = makeAt(fillA, nullptr);
@@ -1088,6 +1146,30 @@ static Verdict runCopy(const Case& c)
    if(c.lp.m() == 0 && c.lp.n() == 0) e.count("copy.point.never_loaded_empty");
    e.count(std::string("copy.point.status.") + statusName(A->status()));
 
+   if(knownKey(K_SCALER) && scaled && side == 1 && kind != 3)
+   {
+      side = 0;      // the copy of a scaled LP works through the scaler object embedded in the source: leave the source alone
+      e.count(std::string("excluded_known.") + K_SCALER);
+   }
+   if(knownKey(K_CTOR) && kind == 0 && fillB != 0)
+   {
+      fillB = 0;     // _optimizeCalls / _unscaleCalls (and the precision-boosting flags) of a copy-constructed object are never written
+      e.count(std::string("excluded_known.") + K_CTOR + ".zero_fill");
+   }
+   if(knownKey(K_CTOR) && kind == 0 && (A->intParam(SoPlex::SCALER) == SoPlex::SCALER_GEO1 || A->intParam(SoPlex::SCALER) == SoPlex::SCALER_GEOEQUI))
+   {
+      kind = 1;      // assignment to a default-constructed object keeps the destination's correctly configured scalers
+      e.count(std::string("excluded_known.") + K_CTOR);
+   }
+   bool rebindBasis = false;
+   if(knownKey(K_MATRIX) && !unloaded && side == 1 && kind != 3)
+   {
+      // the copy's basis matrix consists of pointers into the source: with a basis, setBasis(getBasis()) on all objects
+      // makes the copy rebuild it; without one the source is left alone (the copy is mutated instead)
+      if(hadBasis) rebindBasis = true;
+      else side = 0;
+      e.count(std::string("excluded_known.") + K_MATRIX + (hadBasis ? ".rebound" : ".side_swapped"));
+   }
    heapGarbage(gr ? (int) gr->i(0) : 0, gr ? (int) gr->i(1) : 5, keep);
    // ---- the copy
    const char* copyWhat = "copy constructor";
@@ -1105,6 +1187,21 @@ static Verdict runCopy(const Case& c)
       quiet(*B);
       const Rec* bp = c.find("bprev");
       bool bsolve = bp && bp->i(0) != 0, bsync = bp && bp->i(1) != 0;
+      if(knownKey(K_LUASSIGN) && bsolve)
+      {
+         bsolve = false;
+         e.count(std::string("excluded_known.") + K_LUASSIGN);
+      }
+      if(knownKey(K_LEAK) && bsync && rational)
+      {
+         bsync = false;     // destination and source both hold a rational LP: the destination's is dropped without being freed
+         e.count(std::string("excluded_known.") + K_LEAK + ".rational");
+      }
+      if(knownKey(K_STATUS) && bsync && !rational)
+      {
+         bsync = false;
+         e.count(std::string("excluded_known.") + K_STATUS);
+      }
       if(bsync) B->setIntParam(SoPlex::SYNCMODE, SoPlex::SYNCMODE_AUTO);
       for(auto& r : c.recs)
       {
@@ -1116,6 +1213,14 @@ static Verdict runCopy(const Case& c)
       if(lpFromRecs(c, "b", blp)) loadReal(*B, blp, 0);
       if(bsolve)
       {
+         if(knownKey(K_LEAK) && (B->intParam(SoPlex::SIMPLIFIER) != SoPlex::SIMPLIFIER_OFF || B->intParam(SoPlex::SCALER) != SoPlex::SCALER_OFF))
+         {
+            // a destination whose real LP is kept outside the solver (after a solve with simplifier / non-persistent scaler)
+            // loses that LP without freeing it: let the destination solve without them
+            B->setIntParam(SoPlex::SIMPLIFIER, SoPlex::SIMPLIFIER_OFF);
+            B->setIntParam(SoPlex::SCALER, SoPlex::SCALER_OFF);
+            e.count(std::string("excluded_known.") + K_LEAK + ".reallp");
+         }
          std::string xb = doSolve(*B);
          countStatus("copy.dest_before.solve", xb);
       }
@@ -1172,6 +1277,39 @@ static Verdict runCopy(const Case& c)
          B->setRandomSeed(A->randomSeed());
       }
       e.count("copy.equal_checked");
+      if(knownKey(K_RATTOL))
+      {
+         // re-set the three parameters with a cached rational image in all three objects (what the copy should have got)
+         static const int ids[] = {SoPlex::FEASTOL, SoPlex::OPTTOL, SoPlex::MAXSCALEINCR};
+         bool dev = false;
+         for(int id : ids)
+         {
+            double val = A->realParam((SoPlex::RealParam) id);
+            if(val != SoPlex::Settings::realParam.defaultValue[id]) dev = true;
+            A->setRealParam((SoPlex::RealParam) id, val);
+            B->setRealParam((SoPlex::RealParam) id, val);
+            T->setRealParam((SoPlex::RealParam) id, val);
+         }
+         if(dev || kind == 0) e.count(std::string("excluded_known.") + K_RATTOL);
+      }
+      if(knownKey(K_SCALEROFF) && A->intParam(SoPlex::SCALER) != SoPlex::SCALER_OFF && obsGet(oa, "names.scaler") == "none")
+      {
+         // the source's scaler pointer is transiently null: re-derive it from the parameter in all three objects
+         Rec rb("op");
+         rb.add("setint").add((int) SoPlex::SCALER).add(A->intParam(SoPlex::SCALER));
+         applyOp(*A, rb, 0);
+         applyOp(*B, rb, 0);
+         applyOp(*T, rb, 0);
+         e.count(std::string("excluded_known.") + K_SCALEROFF);
+      }
+      if(rebindBasis)
+      {
+         Rec rb("op");
+         rb.add("basisrt");
+         applyOp(*A, rb, 0);
+         applyOp(*B, rb, 0);
+         applyOp(*T, rb, 0);
+      }
    }
    // ---- independence: mutate one side, the other must not change
    SoPlex** X = (B && side == 0) ? &B : &A;         // mutated
@@ -1237,7 +1375,7 @@ static Verdict runCopy(const Case& c)
          if(isSolveOp(r, 0) || r.s(0) == "binv")
          {
             Obs oy = observe(**Y), ott = observe(*T);
-            std::string dd = firstDiff(oy, ott, nullptr, yn, "twin");
+            std::string dd = firstDiff(oy, ott, TWIN_GROUPS, yn, "twin");
             if(!dd.empty())
             {
                v.fail(std::string("the ") + yn + " does not continue like a never-copied twin: after " + r.s(0) + " they differ in " + dd);
@@ -1276,7 +1414,7 @@ static Verdict runCopy(const Case& c)
          if(isSolveOp(r, 0))
          {
             Obs oy = observe(*A), ott = observe(*T);
-            std::string dd = firstDiff(oy, ott, nullptr, "object", "twin");
+            std::string dd = firstDiff(oy, ott, TWIN_GROUPS, "object", "twin");
             if(!dd.empty())
             {
                v.fail("after self assignment the object does not continue like its twin: after " + r.s(0) + " they differ in " + dd);
@@ -1297,14 +1435,28 @@ static Verdict run(const Case& c)
    g_reseed = knownKey(K_RNG);
    const Rec* p = c.find("part");
    Verdict v = (p && p->s(0) == "copy") ? runCopy(c) : runDet(c);
-   if(v.ok && !knownKey(K_LEAK))
+   if(v.ok)
    {
       std::string l = leakCheck();
-      if(!l.empty()) v.fail("memory leaked by this case (LeakSanitizer report above)");
+      if(!l.empty())
+      {
+         v.fail("memory leaked by this case (LeakSanitizer report above)");
+         if(opts().mode != "replay")
+         {
+            // LeakSanitizer reports the same blocks again on every later check: shrinking would be meaningless, so the
+            // current case is recorded as the failing one and the shard ends here
+            std::string d = opts().dir;
+            writeFile(d + "/failing.case", readFileText(d + "/current.case"));
+            writeFile(d + "/failing.msg", v.msg + "\n");
+            ev().failed = true;
+            ev().evaluations++;
+            ev().flush();
+            printf("FAIL %s\n", v.msg.c_str());
+            fflush(stdout);
+            _exit(1);
+         }
+      }
    }
-#ifdef C17_ASAN
-   else if(v.ok) __lsan_do_recoverable_leak_check();
-#endif
    return v;
 }
 
